@@ -290,3 +290,7 @@ def run(c):
     validate_wal_trace(c, rng, r, tracepath, wal["walks"]["n"])
     c.exhaustive = True
     c.extra["exhaustive_note"] = "exhaustive over the generated small models (all transitions replayed); random WAL histories are sampled"
+    # extension beyond the listed statement: from a raft-committed block entry to the node's chain tip (Ready -> WAL ->
+    # commit -> publishEntries -> block factory -> ChainService), restarts on every prefix of the write journal
+    from checks import raftapply_common
+    raftapply_common.run_raftapply(c)
